@@ -36,6 +36,7 @@ class Dir:
         self.dead = False  # nothing is delivered any more (cut / receiver gone)
         self.eof_done = False
         self.block_armed = False
+        self.always_block = False  # every drain waits for an explicit release
         self.block = None
         self.write_error = False
         self.sink = None  # StreamReader or FakeWS of dst
@@ -140,7 +141,7 @@ class Dir:
     async def wait_writable(self):
         if self.write_error:
             raise ConnectionResetError('simulated write failure')
-        if self.block_armed:
+        if self.block_armed or self.always_block:
             self.block_armed = False
             self.block = self.world.loop.create_future()
             self.world.logev(('blocked', self.src))
